@@ -181,7 +181,7 @@ fn shape_attacks(rng: &mut Rng, base: L, n: usize, out: &mut Vec<(L, L)>) {
         return;
     }
     let a = |i: usize| base + (i % n) as L;
-    match rng.below(11) {
+    match rng.below(13) {
         0 => {
             // cycle (odd or even according to n)
             for i in 0..n {
@@ -255,6 +255,14 @@ fn shape_attacks(rng: &mut Rng, base: L, n: usize, out: &mut Vec<(L, L)>) {
                         out.push((a(start + 1), a(start + 2)));
                         out.push((a(start + 2), a(start + 3)));
                         next += 4;
+                        // optionally a longer tail z -> w -> v -> u …: the intersection of the preferred
+                        // extensions then needs several pruning rounds to reach the ideal extension
+                        let mut tail = start + 3;
+                        while next < n && next - start < 8 && rng.chance(1, 2) {
+                            out.push((a(tail), a(next)));
+                            tail = next;
+                            next += 1;
+                        }
                     }
                     2 if left >= 3 => {
                         for i in 0..3 {
@@ -322,6 +330,72 @@ fn shape_attacks(rng: &mut Rng, base: L, n: usize, out: &mut Vec<(L, L)>) {
             // a few extra random attacks among the remaining arguments
             for i in 1 + k + d..n {
                 out.push((a(i), a(rng.below(n))));
+            }
+        }
+        12 if n >= 5 => {
+            // fan with an undecided rest: an unattacked argument defeats k others (the grounded
+            // extension settles them), one of which touches a small undecided motif (mutual pair, even
+            // or odd cycle, chain) built on the remaining arguments
+            let rest = rng.range(2, (n - 2).min(4));
+            let k = n - 1 - rest;
+            for i in 1..=k {
+                out.push((a(0), a(i)));
+            }
+            let r0 = 1 + k;
+            match rng.below(4) {
+                0 => {
+                    for i in 0..rest - 1 {
+                        out.push((a(r0 + i), a(r0 + i + 1)));
+                        out.push((a(r0 + i + 1), a(r0 + i)));
+                    }
+                }
+                1 => {
+                    for i in 0..rest {
+                        out.push((a(r0 + i), a(r0 + (i + 1) % rest)));
+                    }
+                }
+                2 => {
+                    for i in 0..rest - 1 {
+                        out.push((a(r0 + i), a(r0 + i + 1)));
+                    }
+                    out.push((a(r0 + rest - 1), a(r0 + rest - 1)));
+                }
+                _ => {
+                    out.push((a(r0), a(r0 + 1)));
+                    out.push((a(r0 + 1), a(r0)));
+                    for i in 2..rest {
+                        out.push((a(r0 + rng.below(2)), a(r0 + i)));
+                    }
+                }
+            }
+            // the link between the settled part and the rest
+            let spoke = a(1 + rng.below(k));
+            let target = a(r0 + rng.below(rest));
+            if rng.chance(2, 3) {
+                out.push((spoke, target));
+            } else {
+                out.push((target, spoke));
+            }
+        }
+        11 if n >= 3 => {
+            // hub: one argument attacked by / attacking / in mutual attack with (nearly) all the others
+            let hub = a(rng.below(n));
+            let mode = rng.below(4);
+            for i in 0..n {
+                let x = a(i);
+                if x == hub || rng.chance(1, 8) {
+                    continue;
+                }
+                let m = if mode == 3 { rng.below(3) } else { mode };
+                if m == 0 || m == 2 {
+                    out.push((x, hub));
+                }
+                if m == 1 || m == 2 {
+                    out.push((hub, x));
+                }
+            }
+            for _ in 0..rng.below(3) {
+                out.push((a(rng.below(n)), a(rng.below(n))));
             }
         }
         _ => {
@@ -468,9 +542,18 @@ pub fn gen_framework(rng: &mut Rng, p: &GenParams) -> FwSpec {
         }
         if route == Route::IccmaText && !atts.is_empty() {
             // duplicated attack lines: the only public way to obtain duplicate attacks
-            for _ in 0..rng.below(3) {
-                let (a, b) = *rng.pick(&atts);
-                ops.push(Upd::AddAtt(a, b));
+            if rng.chance(1, 6) {
+                // every line 2..5 times (per-argument attack lists several times their set size)
+                for (a, b) in &atts {
+                    for _ in 0..rng.range(1, 4) {
+                        ops.push(Upd::AddAtt(*a, *b));
+                    }
+                }
+            } else {
+                for _ in 0..rng.below(3) {
+                    let (a, b) = *rng.pick(&atts);
+                    ops.push(Upd::AddAtt(a, b));
+                }
             }
         }
     }
